@@ -705,6 +705,9 @@ pub fn generate_c13(seed: u64, quick: bool) -> Value {
 fn generate_c14(seed: u64, quick: bool) -> Value {
     let mut rng = Rng::new(seed);
     let hash_seed = rng.next_u64() | 1;
+    if rng.chance(1, 25) {
+        return generate_c14_chain(seed, hash_seed, &mut rng);
+    }
     let n = rng.range(1, if quick { 3 } else { 4 }) as usize;
     let shorts: Vec<String> = SHORTS[..n].iter().map(|s| s.to_string()).collect();
     // swarm: which health kinds are enabled in this run
@@ -741,7 +744,36 @@ fn generate_c14(seed: u64, quick: bool) -> Value {
     let mut ops: Vec<Value> = vec![];
     let mut last_failed: Option<String> = None;
     let mut current = libs.clone();
-    for _ in 0..attempts {
+    // the directory the program lives in may be set late (attempts made before any program
+    // was run) and may move to another project between attempts
+    let late_dir = rng.chance(1, 8);
+    if late_dir {
+        for _ in 0..rng.range(1, 2) {
+            ops.push(json!({"op": "import", "lib": "nowhere"}));
+        }
+        ops.push(json!({"op": "move", "to": "prog"}));
+    }
+    let move_at = if rng.chance(1, 5) { rng.range(1, (attempts - 1).max(1)) } else { i64::MAX };
+    for attempt_no in 0..attempts {
+        if attempt_no == move_at {
+            // the second project: same library names, health redrawn for file libraries
+            let mut libs2 = vec![];
+            for l in &current {
+                let mut spec = l.clone();
+                if spec["delivery"].as_str() != Some("registered") && rng.chance(2, 3) {
+                    let healthy_now = spec["health"].as_str() == Some("healthy");
+                    let new_health = if healthy_now {
+                        if rng.chance(1, 2) { "missing" } else { *rng.pick(&enabled) }
+                    } else {
+                        "healthy"
+                    };
+                    spec["health"] = json!(new_health);
+                }
+                libs2.push(spec);
+            }
+            current = libs2.clone();
+            ops.push(json!({"op": "move", "to": "prog2", "libs": libs2}));
+        }
         if with_events && rng.chance(1, 2) {
             // heal or break one library between attempts
             let i = rng.upto(n);
@@ -778,6 +810,48 @@ fn generate_c14(seed: u64, quick: bool) -> Value {
         "mode": "C14",
         "libs": libs,
         "relative_program_dir": rng.chance(1, 3),
+        "late_dir": late_dir,
+        "ops": ops,
+    })
+}
+
+/// a long chain of libraries, each importing the next (and sometimes the one after it):
+/// only the nesting of loads grows, never the number of paths a correct loader follows
+fn generate_c14_chain(seed: u64, hash_seed: u64, rng: &mut Rng) -> Value {
+    let n = if rng.chance(1, 2) { rng.range(50, 110) } else { rng.range(2, 50) } as usize;
+    let shorts: Vec<String> = (0..n).map(|i| format!("c{}", i)).collect();
+    let tail = rng.upto(6); // 0-2 the chain ends; 3 it closes on itself; 4 its end is missing; 5 its end faults
+    let back_to = rng.upto(n);
+    let mut libs = vec![];
+    for i in 0..n {
+        let mut imports = vec![];
+        if i + 1 < n {
+            imports.push(shorts[i + 1].clone());
+            if i + 2 < n && rng.chance(1, 4) {
+                imports.push(shorts[i + 2].clone()); // a shared dependency, not a cycle
+            }
+        } else if tail == 3 {
+            imports.push(shorts[back_to].clone());
+        }
+        let health = match (i + 1 == n, tail) {
+            (true, 4) => "missing",
+            (true, 5) => "faulting-body",
+            _ => "healthy",
+        };
+        libs.push(gen_lib(rng, &shorts[i], imports, health, false));
+    }
+    let mut ops = vec![];
+    for _ in 0..rng.range(1, 3) {
+        let target = if rng.chance(2, 3) { shorts[0].clone() } else { shorts[rng.upto(n)].clone() };
+        ops.push(json!({"op": "import", "lib": target}));
+    }
+    json!({
+        "seed": seed,
+        "hash_seed": hash_seed,
+        "mode": "C14",
+        "chain": true,
+        "libs": libs,
+        "relative_program_dir": rng.chance(1, 3),
         "ops": ops,
     })
 }
@@ -788,6 +862,19 @@ struct Sandbox {
     root: PathBuf,
     prog: PathBuf,
     prog_as_given: PathBuf,
+    /// None: no program has been run yet, libraries are looked up from the working directory
+    directory_set: bool,
+    relative: bool,
+}
+
+impl Sandbox {
+    /// the program's directory becomes `<root>/<which>`
+    fn move_to(&mut self, which: &str) {
+        self.prog = self.root.join(which);
+        let _ = std::fs::create_dir_all(self.prog.join("lib"));
+        self.prog_as_given = if self.relative { PathBuf::from(format!("../{}", which)) } else { self.prog.clone() };
+        self.directory_set = true;
+    }
 }
 
 fn setup_sandbox(case: &Value, libs: &[Value]) -> Sandbox {
@@ -807,7 +894,13 @@ fn setup_sandbox(case: &Value, libs: &[Value]) -> Sandbox {
     } else {
         prog.clone()
     };
-    Sandbox { root, prog, prog_as_given }
+    Sandbox {
+        root,
+        prog,
+        prog_as_given,
+        directory_set: !case["late_dir"].as_bool().unwrap_or(false),
+        relative: case["relative_program_dir"].as_bool().unwrap_or(false),
+    }
 }
 
 fn teardown_sandbox(sb: &Sandbox) {
@@ -820,7 +913,9 @@ fn new_interpreter(sb: &Sandbox, libs: &[Value]) -> Result<Interpreter<'static, 
         Ok(it) => it,
         Err(p) => return Err(format!("panic/{}", p.signature())),
     };
-    it.program_directory = Some(sb.prog_as_given.clone());
+    if sb.directory_set {
+        it.program_directory = Some(sb.prog_as_given.clone());
+    }
     register_libs(&mut it, libs)?;
     Ok(it)
 }
@@ -1096,10 +1191,14 @@ fn execute_c14(case: Value) -> RunResult {
             .collect::<Vec<_>>()
             .join(" ")
     ));
-    let sb = setup_sandbox(&case, &libs0);
+    let mut sb = setup_sandbox(&case, &libs0);
     let mut current = libs0.clone();
     // every version each library has had since the interpreter was created
     let mut versions: Vec<Vec<Value>> = libs0.iter().map(|l| vec![l.clone()]).collect();
+    // (library, version) pairs a loader may legitimately have kept: the library was reached
+    // by an earlier attempt while that version was readable
+    let mut kept: BTreeSet<(usize, usize)> = BTreeSet::new();
+    let chain = case["chain"].as_bool().unwrap_or(false);
     let mut it = match new_interpreter(&sb, &current) {
         Ok(it) => it,
         Err(e) => {
@@ -1109,7 +1208,10 @@ fn execute_c14(case: Value) -> RunResult {
         }
     };
     ruschm::verif_hooks::set_budget(3_000_000, 20_000);
-    ruschm::verif_hooks::set_loader_depth_limit(64);
+    // far above anything a correct loader needs for this world (every wrapper of an import set
+    // counts as a level), far below what hurts
+    let nesting_limit = if chain { 6 * libs0.len() as u32 + 16 } else { 64 };
+    ruschm::verif_hooks::set_loader_depth_limit(nesting_limit);
     let mut kinds = String::new();
     let mut any_event = false;
     let mut failed_before: BTreeSet<String> = BTreeSet::new();
@@ -1141,6 +1243,33 @@ fn execute_c14(case: Value) -> RunResult {
                 res.log.push(format!("{:>3} [{}] {} becomes {}", step, op["op"].as_str().unwrap(), s, spec["health"].as_str().unwrap_or("")));
                 res.count(&format!("event.{}", op["op"].as_str().unwrap()));
             }
+            Some("move") => {
+                let to = op["to"].as_str().unwrap_or("prog").to_string();
+                sb.move_to(&to);
+                if let Some(l2) = op["libs"].as_array() {
+                    if l2.len() != current.len() {
+                        res.invalid = Some("move with a different set of libraries".into());
+                        break;
+                    }
+                    for (i, spec) in l2.iter().enumerate() {
+                        if *spec != current[i] {
+                            versions[i].push(spec.clone());
+                            any_event = true;
+                        }
+                        current[i] = spec.clone();
+                    }
+                    write_world(&sb.prog, &current);
+                }
+                it.program_directory = Some(sb.prog_as_given.clone());
+                kinds.push_str(&format!("move:{},", to));
+                res.log.push(format!(
+                    "{:>3} [move] the program directory becomes {} ({})",
+                    step,
+                    to,
+                    current.iter().map(|l| format!("{}:{}", l["short"].as_str().unwrap_or(""), l["health"].as_str().unwrap_or(""))).collect::<Vec<_>>().join(" ")
+                ));
+                res.count(&format!("event.move-to-{}", to));
+            }
             Some("import") => {
                 attempts += 1;
                 let lib = op["lib"].as_str().unwrap_or("").to_string();
@@ -1148,29 +1277,68 @@ fn execute_c14(case: Value) -> RunResult {
                 // accepted classes: for the world as it is; after events also for any
                 // mixture of versions a loader may legitimately have kept
                 let mut accepted: BTreeSet<String> = if causes.is_empty() { ["Ok".to_string()].into() } else { causes.clone() };
+                // which versions of each library may be in effect for this attempt
+                let allowed: Vec<Vec<usize>> = versions
+                    .iter()
+                    .enumerate()
+                    .map(|(i, vs)| {
+                        let registered_once = vs.iter().any(|v| v["delivery"].as_str() == Some("registered"));
+                        (0..vs.len())
+                            .filter(|v| *v + 1 == vs.len() || registered_once || kept.contains(&(i, *v)))
+                            .collect()
+                    })
+                    .collect();
                 if any_event {
                     let mut mixes: Vec<Vec<Value>> = vec![vec![]];
-                    for vs in &versions {
+                    for (i, vs) in allowed.iter().enumerate() {
                         let mut next = vec![];
                         for m in &mixes {
                             for v in vs {
                                 let mut mm = m.clone();
-                                mm.push(v.clone());
+                                mm.push(versions[i][*v].clone());
                                 next.push(mm);
                             }
                         }
                         mixes = next;
-                        if mixes.len() > 256 {
-                            break;
-                        }
+                    }
+                    if mixes.len() > 4096 {
+                        res.invalid = Some("too many version mixtures".into());
+                        break;
                     }
                     for mix in &mixes {
-                        if mix.len() == versions.len() {
-                            let c = analyse(mix, &lib);
-                            if c.is_empty() {
-                                accepted.insert("Ok".into());
-                            } else {
-                                accepted.extend(c);
+                        let c = analyse(mix, &lib);
+                        if c.is_empty() {
+                            accepted.insert("Ok".into());
+                        } else {
+                            accepted.extend(c);
+                        }
+                    }
+                }
+                // what this attempt may leave behind: everything it can reach through
+                // readable versions keeps the version it was read in
+                {
+                    let index: BTreeMap<String, usize> = current
+                        .iter()
+                        .enumerate()
+                        .map(|(i, l)| (l["short"].as_str().unwrap_or("").to_string(), i))
+                        .collect();
+                    let mut seen: BTreeSet<usize> = BTreeSet::new();
+                    let mut stack: Vec<usize> = index.get(&lib).copied().into_iter().collect();
+                    while let Some(i) = stack.pop() {
+                        if !seen.insert(i) {
+                            continue;
+                        }
+                        for v in &allowed[i] {
+                            let spec = &versions[i][*v];
+                            if matches!(spec["health"].as_str(), Some("healthy") | Some("faulting-body")) {
+                                kept.insert((i, *v));
+                                if let Some(im) = spec["imports"].as_array() {
+                                    for j in im {
+                                        if let Some(k) = index.get(j.as_str().unwrap_or("")) {
+                                            stack.push(*k);
+                                        }
+                                    }
+                                }
                             }
                         }
                     }
@@ -1225,7 +1393,7 @@ fn execute_c14(case: Value) -> RunResult {
                 if observed == "Budget" || fresh == "Budget" {
                     res.violation = Some(Violation {
                         signature: "C14/loading-does-not-terminate".into(),
-                        detail: json!({"step": step, "import": key_of(&lib), "accepted": accepted, "observed": observed, "fresh_interpreter": fresh, "note": "library loads nested more than 64 deep in a world of at most 5 libraries"}),
+                        detail: json!({"step": step, "import": key_of(&lib), "accepted": accepted, "observed": observed, "fresh_interpreter": fresh, "note": format!("library loads nested more than {} deep in a world of {} libraries", nesting_limit, libs0.len())}),
                     });
                     break;
                 }
